@@ -7,16 +7,19 @@ import "time"
 // VerifState is a read-only copy of the unexported consensus state.
 type VerifState[H Hash] struct {
 	BlockProcessed, PreBlockProcessed, TxSubscriptionOn, Recovering bool
-	LastBlockTimestamp                                               uint64
-	LastBlockTime, PrepareSentTime                                   time.Time
-	LastBlockIndex                                                   uint32
-	LastBlockView                                                    byte
-	TimePerBlock, MaxTimePerBlock                                    time.Duration
-	RttIdx                                                           int
-	RttAvg                                                           time.Duration
-	RttTimes                                                         []time.Duration
-	HasHeader, HasBlock, HasPreHeader, HasPreBlock                   bool
-	Cache                                                            map[uint32]map[string]map[uint16]ConsensusPayload[H]
+	LastBlockTimestamp                                              uint64
+	LastBlockTime, PrepareSentTime                                  time.Time
+	LastBlockIndex                                                  uint32
+	LastBlockView                                                   byte
+	TimePerBlock, MaxTimePerBlock                                   time.Duration
+	RttIdx                                                          int
+	RttAvg                                                          time.Duration
+	RttTimes                                                        []time.Duration
+	HasHeader, HasBlock, HasPreHeader, HasPreBlock                  bool
+	Header, Block                                                   Block[H]
+	PreHeader, PreBlock                                             PreBlock[H]
+	CacheReady                                                      bool
+	Cache                                                           map[uint32]map[string]map[uint16]ConsensusPayload[H]
 }
 
 // VerifSnapshot returns a copy of the unexported state.
@@ -29,7 +32,9 @@ func (d *DBFT[H]) VerifSnapshot() VerifState[H] {
 		TimePerBlock: d.timePerBlock, MaxTimePerBlock: d.maxTimePerBlock,
 		RttIdx: d.rttEstimates.idx, RttAvg: d.rttEstimates.avg, RttTimes: append([]time.Duration(nil), d.rttEstimates.times[:]...),
 		HasHeader: d.header != nil, HasBlock: d.block != nil, HasPreHeader: d.preHeader != nil, HasPreBlock: d.preBlock != nil,
-		Cache: map[uint32]map[string]map[uint16]ConsensusPayload[H]{},
+		Header: d.header, Block: d.block, PreHeader: d.preHeader, PreBlock: d.preBlock,
+		CacheReady: d.cache.mail != nil,
+		Cache:      map[uint32]map[string]map[uint16]ConsensusPayload[H]{},
 	}
 	for h, in := range d.cache.mail {
 		m := map[string]map[uint16]ConsensusPayload[H]{"prepare": {}, "chViews": {}, "preCommit": {}, "commit": {}}
